@@ -225,6 +225,7 @@ def p_pop(chk):
                      z3.Implies(cc != c, qm.sel2(Q1, cc, x) == qm.sel2(Q0, cc, x)),
                      qm.sel2(Q1, cc, x) <= qm.sel2(Q0, cc, x), qm.sel2(Q1, cc, x) >= 0,
                      z3.Implies(qm.sel2(Q1, cc, x) < qm.sel2(Q0, cc, x), z3.Select(done, x))))),
+                ("other_queues_identical", Forall(["chan"], lambda cc: z3.Implies(cc != c, z3.Select(Q1, cc) == z3.Select(Q0, cc)))),
                 ("nothing_else_changes", all(same))]
 
     def havoc_preen(I, v, it):
@@ -245,6 +246,78 @@ def p_pop(chk):
         I.oblige("head_unfinished_afterwards", z3.Implies(z3.Select(qc, h) > 0, z3.Not(z3.Select(S1["j_done"], h))))
 
     chk.prove("jobs.workq._preenjobq", harness2, ex2, targets=[pj])
+
+
+def preenjobq_contract(I, w, q):
+    """contract of workq._preenjobq(q) (verified against its body by jobs.workq._preenjobq):
+    only this queue changes, only finished jobs leave it, its head is unfinished afterwards"""
+    S = st(I)
+    c = q.chan
+    Q0 = S["Q"]
+    Q1 = I.fresh("preen1_Q", A(Z, A(Z, Z)))
+    done, prio, serial = S["j_done"], S["j_prio"], S["j_serial"]
+    I.assume(Forall(["chan", "job"], lambda cc, x: z3.And(
+        z3.Implies(cc != c, qm.sel2(Q1, cc, x) == qm.sel2(Q0, cc, x)),
+        qm.sel2(Q1, cc, x) <= qm.sel2(Q0, cc, x), qm.sel2(Q1, cc, x) >= 0,
+        z3.Implies(qm.sel2(Q1, cc, x) < qm.sel2(Q0, cc, x), z3.Select(done, x))), "preenjobq_effect"))
+    I.assume(Forall(["chan"], lambda cc: z3.Implies(cc != c, z3.Select(Q1, cc) == z3.Select(Q0, cc)), "preenjobq_other_queues_identical"))
+    qc = z3.Select(Q1, c)
+    h = qm.heap_min(qc, prio, serial)
+    I.assume(z3.Implies(z3.Select(qc, h) > 0, z3.Not(z3.Select(done, h))))
+    S["Q"] = Q1
+    return SInt(I.fresh("removed", Z))
+
+
+def p_preenall(chk):
+    """workq._preenall against the contract its callers use (qmodel.preenall_contract):
+    iteration over every channel queue, each preened through _preenjobq's contract"""
+    ex = c16.new_explorer()
+    fn = ex.function(JOBS, "workq._preenall")
+    ex.contracts[JOBS + ":workq._preenjobq"] = preenjobq_contract
+
+    def inv(I, v, it):
+        S = st(I)
+        old = I.ghost["old"]
+        Q0, Q1, done = old["Q"], S["Q"], S["j_done"]
+        V = it["V"]
+        prio, serial = S["j_prio"], S["j_serial"]
+
+        def heads(c):
+            qc = z3.Select(Q1, c)
+            h = qm.heap_min(qc, prio, serial)
+            return z3.Implies(z3.And(z3.Select(V, c), z3.Select(S["q_has"], c), z3.Select(qc, h) > 0), z3.Not(z3.Select(done, h)))
+        same = all(S.t[k].eq(old.t[k]) for k in S.t if k != "Q")
+        return [("only_finished_jobs_leave_the_queues", Forall(["chan", "job"], lambda c, x: z3.And(
+                    qm.sel2(Q1, c, x) <= qm.sel2(Q0, c, x), qm.sel2(Q1, c, x) >= 0,
+                    z3.Implies(qm.sel2(Q1, c, x) < qm.sel2(Q0, c, x), z3.Select(done, x))))),
+                ("visited_queues_have_unfinished_heads", Forall(["chan"], heads)),
+                ("nothing_else_changes", same)]
+
+    def havoc(I, v, it):
+        st(I)["Q"] = I.fresh("loop_Q", A(Z, A(Z, Z)))
+    ex.loopspecs[(JOBS + ":workq._preenall", 0)] = LoopSpec(inv, None, havoc)
+
+    def harness(I):
+        S, w = c16.start(I, ex)
+        I.ghost["old"] = S.copy()
+        out = ex.run_function(I, fn, [w])
+        I.oblige("no_raise", out.returned, meta=c16.note_exc(out))
+        S1 = st(I)
+        old = I.ghost["old"]
+        Q0, Q1, done = old["Q"], S1["Q"], S1["j_done"]
+        prio, serial = S1["j_prio"], S1["j_serial"]
+        I.oblige("contract.only_finished_jobs_leave_the_queues", Forall(["chan", "job"], lambda c, x: z3.And(
+            qm.sel2(Q1, c, x) <= qm.sel2(Q0, c, x), qm.sel2(Q1, c, x) >= 0,
+            z3.Implies(qm.sel2(Q1, c, x) < qm.sel2(Q0, c, x), z3.Select(done, x)))))
+
+        def heads(c):
+            qc = z3.Select(Q1, c)
+            h = qm.heap_min(qc, prio, serial)
+            return z3.Implies(z3.And(z3.Select(S1["q_has"], c), z3.Select(qc, h) > 0), z3.Not(z3.Select(done, h)))
+        I.oblige("contract.every_registered_queue_has_an_unfinished_head", Forall(["chan"], heads))
+        I.oblige("contract.nothing_else_changes", all(S1.t[k].eq(old.t[k]) for k in S1.t if k != "Q"))
+
+    chk.prove("jobs.workq._preenall", harness, ex, targets=[fn])
 
 
 # ----------------------------------------------------------------------------- idempotent add
@@ -385,7 +458,7 @@ def run(chk):
     import os
     qm.EXTENDED = True
     only = os.environ.get("VERIF_ONLY")
-    parts = [("order", p_order), ("mark", p_mark_finished), ("finishjob", p_finishjob), ("pop", p_pop), ("idem", p_push_idempotent),
+    parts = [("order", p_order), ("mark", p_mark_finished), ("finishjob", p_finishjob), ("preenall", p_preenall), ("pop", p_pop), ("idem", p_push_idempotent),
              ("callers", p_pushjob_callers), ("handoff", p_handoff_not_finished), ("bounded", bounded)]
     parts = [(n, f) for n, f in parts if not only or n in only.split(",")]
     for n, f in parts:
@@ -397,7 +470,7 @@ def run(chk):
         bounded(chk)
     chk.assumptions += [
         "as C16 (cooperative scheduling, heapq/min/random.choice/gevent contracts, abstract ids)",
-        "workq._preenall applies _preenjobq to every channel queue (its iteration is assumed; _preenjobq's body is verified)",
+        "the heads-unfinished clause of _preenall's contract covers queues registered in channel2q (q_has); a queue entry implies its channel is registered (Inv I2)",
         "counter clause requires `error` to be None or a non-empty string (what qs/slave.py sends); with error == '' no counter moves (observation, excluded by the stated precondition)",
         "functools.total_ordering derives __lt__ from __le__ as `a <= b and a != b`",
     ]
